@@ -482,3 +482,78 @@ theorem cleanup_spec (tbl : List AppDef) (r : Runner)
       exact hcl'
 
 end Aio.C20
+
+namespace Aio.C20
+
+/-! ## the whole tree when nothing raises -/
+
+/-- start-up that does not raise: the log lists, group by group, exactly what `_exits` holds -/
+theorem send_startup_full (tbl : List AppDef) (l : List Step) (X : Exits)
+    (hnd : (groupsOf l).Nodup) (hfresh : ∀ a ∈ groupsOf l, X a = [])
+    (hok : (send tbl .startup l X).err = none) :
+    enteredOf (send tbl .startup l X).ev =
+        (groupsOf l).flatMap (fun g => ((send tbl .startup l X).X g).map (fun j => (g, j))) ∧
+      ∀ a, a ∉ groupsOf l → (send tbl .startup l X).X a = X a := by
+  induction l generalizing X with
+  | nil => simp [send]
+  | cons st l ih =>
+    cases st with
+    | h id f =>
+      simp only [groupsOf_cons_h] at hnd hfresh ⊢
+      simp only [send, runStep] at hok ⊢
+      by_cases hf : f = .ok
+      · simp only [hf, if_true] at hok ⊢
+        have := ih X hnd hfresh hok
+        simpa using this
+      · simp [hf] at hok
+    | grp g =>
+      simp only [groupsOf_cons_grp, List.nodup_cons] at hnd
+      simp only [groupsOf_cons_grp]
+      have hg : X g = [] := hfresh g (by simp)
+      have hlog := (enterAll_log g (ctxsOf tbl g) 0).1
+      simp only [send, runStep] at hok ⊢
+      cases he : (enterAll g 0 (ctxsOf tbl g)).err with
+      | some e => simp [he] at hok
+      | none =>
+        simp only [he, Option.map_none] at hok ⊢
+        have hfresh' : ∀ b ∈ groupsOf l, (X.set g (X g ++ (enterAll g 0 (ctxsOf tbl g)).entered)) b = [] := by
+          intro b hb
+          have hbg : b ≠ g := fun h => hnd.1 (h ▸ hb)
+          simp only [Exits.set, if_neg hbg]
+          exact hfresh b (by simp [hb])
+        have IH := ih _ hnd.2 hfresh' hok
+        have hXg : (send tbl .startup l (X.set g (X g ++ (enterAll g 0 (ctxsOf tbl g)).entered))).X g =
+            (enterAll g 0 (ctxsOf tbl g)).entered := by
+          rw [IH.2 g hnd.1]; simp [Exits.set, hg]
+        refine ⟨?_, ?_⟩
+        · simp only [enteredOf_append, List.flatMap_cons, IH.1, hXg, hlog]
+        · intro a ha
+          simp only [List.mem_cons, not_or] at ha
+          rw [IH.2 a ha.2]
+          simp [Exits.set, ha.1]
+
+theorem filter_flatMap_pairs (gs : List Nat) (f : Nat → List Nat) (a : Nat) (hg : gs.Nodup) :
+    (gs.flatMap (fun g => (f g).map (fun j => (g, j)))).filter (fun p => p.1 = a) =
+      if a ∈ gs then (f a).map (fun j => (a, j)) else [] := by
+  induction gs with
+  | nil => simp
+  | cons g gs ih =>
+    simp only [List.nodup_cons] at hg
+    simp only [List.flatMap_cons, List.filter_append, ih hg.2]
+    by_cases hga : g = a
+    · subst hga
+      have h1 : ((f g).map (fun j => (g, j))).filter (fun p => decide (p.1 = g)) = (f g).map (fun j => (g, j)) := by
+        rw [List.filter_eq_self]; intro p hp
+        simp only [List.mem_map] at hp
+        obtain ⟨j, _, rfl⟩ := hp
+        simp
+      simp [h1, hg.1]
+    · have h1 : ((f g).map (fun j => (g, j))).filter (fun p => decide (p.1 = a)) = [] := by
+        rw [List.filter_eq_nil_iff]; intro p hp
+        simp only [List.mem_map] at hp
+        obtain ⟨j, _, rfl⟩ := hp
+        simp [hga]
+      have : (a = g) = False := by simp [Ne.symm hga]
+      simp [h1, this]
+
+end Aio.C20
